@@ -19,10 +19,15 @@ class Ctx:
             self._ast = Ast(self.facts)
         return self._ast
 
+    def _link_ast(self):
+        import absint
+        absint.AST = self.ast          # the interval analysis reads the values of named constant structs from the syntax tree
+
     @property
     def mir(self):
         if self._mir is None:
             self._mir = Mir(self.facts)
+            self._link_ast()
         return self._mir
 
     @property
